@@ -4,7 +4,7 @@ import struct
 ID = "C04"
 PROPS = "Props/C04.v"
 COQ_TIMEOUT = 5400   # Coq build of this property incl. rebuilt dependencies; generous: on a loaded machine a rebuild after an upstream edit took > 1500 s
-GEN = ["sm3iv", "sm3consts", "sm3code"]
+GEN = ["sm3iv", "sm3consts", "sm3code", "tlssuites"]   # every Gen file in the Coq closure of Props/C04.v is regenerated (never a stale table)
 LEGS = [
     {"driver": "c04", "runner": ("sm3", "Extract/ExtractSM3.v", "Sm3_model")},
     {"driver": "c04w", "runner": ("sm3", "Extract/ExtractSM3.v", "Sm3_model"), "tags": "verif"},
